@@ -47,7 +47,7 @@ package vm
 //@   && (forall p uint32 :: p in pt.tables ==> listLen(pt.tables[p], len(tabs[src[p]].Pages)))
 //@   && (forall p uint32 :: p in pt.tables ==> listElems(pt.tables[p], llen[pt.tables[p].entries]))
 //@   && (forall p uint32 :: p in pt.tables ==> listPages(pt.tables[p], tabs[src[p]].Pages, len(tabs[src[p]].Pages)))
-//@   && (forall p uint32 :: p in pt.tables ==> listPagesL(pt.tables[p], tabs[src[p]].Pages, llen[pt.tables[p].entries]))
+//@   && (forall p uint32 :: (p in pt.tables) && dtoClean(tabs) ==> listClean(pt.tables[p], p))
 //@   && (forall p uint32 :: p in pt.tables ==> mapPoints(pt.tables[p]))
 //@   && (forall p uint32 :: p in pt.tables ==> mapCovers(pt.tables[p], llen[pt.tables[p].entries]))
 //@   && tablesSep(pt)
